@@ -20,7 +20,7 @@ EXPLANATION = (
     'expansion (bit-vector formula) for both tables. Header: real read_header run on a structured header whose numeric '
     'field values (header size, counts) are symbolic.')
 BOUNDS = {
-    'quick': 'channels 1..8, sample_n_bytes in {1,2}, codings pcm/ulaw/alaw, requested dtype None/uint8/int8/int16/int32, headers of 1024 bytes (any declared size) and of 2048 bytes whose fields cross byte 1024 at every position of the mandatory fields (positions splitting a number excluded), data section <= 3*16384+64 bytes (>= 3 loop iterations), any sample_count / any truncation inside that',
+    'quick': 'channels 1..8 (both byte orders for 1..3) and 8193 / 16385 channels (one sample frame larger than the 16 KiB read buffer), sample_n_bytes in {1,2}, codings pcm/ulaw/alaw, requested dtype None/uint8/int8/int16/int32, headers of 1024 bytes (any declared size) and of 2048 bytes whose fields cross byte 1024 at every position of the mandatory fields (positions splitting a number excluded), data section <= 3*16384+64 bytes (>= 3 loop iterations), any sample_count / any truncation inside that',
     'thorough': 'same with data section <= 6*16384+64 bytes and channels 1..12',
 }
 OUTSIDE = ['narrowing casts of 16-bit PCM into a requested 1-byte dtype (C cast semantics)', 'sample_n_bytes == 4',
@@ -239,6 +239,10 @@ def configs(tier, seed):
                 for order in (('10', '01') if size == 2 and (ch <= 3 or tier != 'quick') else ('10',)):
                     cfgs.append(dict(kind='copy', name='copy ch%d %s%d dtype=%s%s' % (ch, coding, size, dt, '' if order == '10' else ' little-endian'), ch=ch, coding=coding,
                                      size=size, dt=dt, maxbytes=maxbytes, order=order))
+    # a sample frame larger than the 16 KiB read buffer (more than 8192 16-bit channels): each read is then one frame
+    for ch, coding, size, dt in ((8193, 'pcm', 2, None), (16385, 'ulaw', 1, None), (16385, 'alaw', 1, 'u1')):
+        cfgs.append(dict(kind='copy', name='copy ch%d %s%d dtype=%s (frame larger than the read buffer)' % (ch, coding, size, dt), ch=ch, coding=coding,
+                         size=size, dt=dt, maxbytes=maxbytes, order='10'))
     cfgs.append(dict(kind='tables', name='g711 tables'))
     cfgs.append(dict(kind='header', name='header'))
     offs = list(range(-160, 12))
